@@ -979,3 +979,61 @@ Proof.
   intros k Hk. apply get_element_tree.
   unfold schema_of in Hk. cbn [length] in Hk. rewrite flat_map_flatten_length in Hk. exact Hk.
 Qed.
+
+(** ** builder: ANY call sequence (add_column and add_group in any order, any arguments) stays inside the allocations *)
+Definition bsafe (b : bschema) : Prop :=
+  (1 <= length (b_elems b))%nat /\ (Z.of_nat (length (b_elems b)) <= b_capacity b)%Z /\
+  (length (b_leaves b) < length (b_elems b))%nat /\ (1 <= b_capacity b)%Z.
+
+Lemma push_elem_safe : forall s e lv, (1 <= length (b_elems s))%nat -> (Z.of_nat (length (b_elems s)) + 1 <= b_capacity s)%Z ->
+  exists s', push_elem s e lv = Ok s' /\ length (b_elems s') = S (length (b_elems s)) /\
+             b_capacity s' = b_capacity s /\ b_leaves s' = b_leaves s.
+Proof.
+  intros s e lv H1 H2. unfold push_elem.
+  destruct (Z.of_nat (length (b_elems s)) <? b_capacity s)%Z eqn:E; [|apply Z.ltb_ge in E; lia].
+  destruct (b_elems s) as [|r tl] eqn:Eb; [cbn in H1; lia|].
+  cbn [app bump_root]. eexists. split; [reflexivity|].
+  cbn [b_elems b_capacity b_leaves length]. rewrite app_length. cbn [length]. repeat split; lia.
+Qed.
+
+Lemma add_column_safe : forall s nm ty lg rp tl, bsafe s ->
+  exists s', add_column s nm ty lg rp tl = Ok s' /\ bsafe s'.
+Proof.
+  intros s nm ty lg rp tl (H1 & H2 & H3 & H4). unfold add_column.
+  destruct (ensure_capacity_ok s (Z.of_nat (length (b_elems s)) + 1)%Z H4) as (cap' & He & Hr & Hm); [lia|].
+  rewrite He.
+  destruct (push_elem_safe (mkB (b_elems s) (b_nodes s) cap' (b_leaves s))
+                           (mkElem (Some nm) true ty tl true rp 0 lg) (own_def rp, own_rep rp))
+    as (s2 & E2 & L2 & C2 & V2); cbn [b_elems b_capacity]; try assumption.
+  cbn [b_elems] in E2 |- *. rewrite E2.
+  cbn [b_elems b_capacity b_leaves] in L2, C2, V2.
+  destruct (Z.of_nat (length (b_leaves s2)) <? b_capacity s2)%Z eqn:E3; [|apply Z.ltb_ge in E3; rewrite V2, C2 in E3; lia].
+  eexists. split; [reflexivity|]. unfold bsafe. cbn [b_elems b_capacity b_leaves].
+  rewrite app_length. cbn [length]. rewrite L2, C2, V2. repeat split; lia.
+Qed.
+
+Lemma add_group_safe : forall s nm rp pi, bsafe s ->
+  exists s' i, add_group s nm rp pi = Ok (s', i) /\ bsafe s'.
+Proof.
+  intros s nm rp pi Hs. pose proof Hs as (H1 & H2 & H3 & H4). unfold add_group.
+  destruct (negb (pi =? -1)%Z && negb (pi =? 0)%Z); [eexists _, _; split; [reflexivity|exact Hs]|].
+  destruct (ensure_capacity_ok s (Z.of_nat (length (b_elems s)) + 1)%Z H4) as (cap' & He & Hr & Hm); [lia|].
+  rewrite He.
+  destruct (push_elem_safe (mkB (b_elems s) (b_nodes s) cap' (b_leaves s))
+                           (mkElem (Some nm) false 0 0 true rp 0 None) (own_def rp, own_rep rp))
+    as (s2 & E2 & L2 & C2 & V2); cbn [b_elems b_capacity]; try assumption.
+  cbn [b_elems] in E2 |- *. rewrite E2.
+  cbn [b_elems b_capacity b_leaves] in L2, C2, V2.
+  eexists _, _. split; [reflexivity|]. unfold bsafe. rewrite L2, C2, V2. repeat split; lia.
+Qed.
+
+Theorem builder_never_faults_thm : forall ops, exists b rets, run_ops schema_create ops [] = Ok (b, rets) /\ bsafe b.
+Proof.
+  assert (G : forall ops s acc, bsafe s -> exists b rets, run_ops s ops acc = Ok (b, rets) /\ bsafe b).
+  { induction ops as [|[nm ty lg rp tl|nm rp pi] ops IH]; intros s acc Hs.
+    - eexists _, _. split; [reflexivity|exact Hs].
+    - cbn [run_ops]. destruct (add_column_safe s nm ty lg rp tl Hs) as (s' & E & Hs'). rewrite E. apply IH. exact Hs'.
+    - cbn [run_ops]. destruct (add_group_safe s nm rp pi Hs) as (s' & i & E & Hs'). rewrite E. apply IH. exact Hs'. }
+  intro ops. apply G. unfold bsafe, schema_create. cbn [b_elems b_capacity b_leaves length].
+  pose proof initial_capacity_pos. change INITIAL_CAPACITY with 64%Z in *. repeat split; lia.
+Qed.
